@@ -778,6 +778,47 @@ func (in *Interp) store(p Value, v Value) {
 
 // symLoad reads base[idx] for a symbolic in-range idx.
 func (in *Interp) symLoad(p SymPtr) Value {
+	// a look-up whose index is itself the result of a look-up in a constant
+	// table (base64 decode of an encoded character, ...): compose the tables
+	if in.tt.tableLoads != nil {
+		inner := p.idx
+		if inner.op == OZext {
+			inner = inner.a
+		}
+		if tl, ok := in.tt.tableLoads[inner]; ok && len(tl.vals) > 0 {
+			comp := make([]Value, len(tl.vals))
+			okc, ident := true, true
+			for k, v := range tl.vals {
+				if v >= uint64(len(p.base)) {
+					okc = false
+					break
+				}
+				e, isT := p.base[v].(*Term)
+				if !isT || !e.IsConst() {
+					okc = false
+					break
+				}
+				comp[k] = e
+				if e.w > 64 || e.c != uint64(k) {
+					ident = false
+				}
+			}
+			if okc {
+				w := comp[0].(*Term).w
+				if ident {
+					switch {
+					case tl.idx.w == w:
+						return tl.idx
+					case tl.idx.w > w:
+						return in.tt.Extract(tl.idx, w-1, 0)
+					default:
+						return in.tt.Zext(tl.idx, w)
+					}
+				}
+				return in.symLoad(SymPtr{base: comp, idx: in.tt.Zext(tl.idx, 64)})
+			}
+		}
+	}
 	v := in.symLoad1(p)
 	// remember look-ups in injective constant tables (hex digits, base64
 	// alphabets): two such look-ups are equal iff their indexes are
@@ -799,7 +840,11 @@ func (in *Interp) symLoad(p SymPtr) Value {
 				in.tt.tableLoads = map[*Term]tableLoad{}
 			}
 			if _, dup := in.tt.tableLoads[r]; !dup {
-				in.tt.tableLoads[r] = tableLoad{key: sb.String(), idx: p.idx}
+				vals := make([]uint64, len(p.base))
+				for i, e := range p.base {
+					vals[i] = e.(*Term).c
+				}
+				in.tt.tableLoads[r] = tableLoad{key: sb.String(), idx: p.idx, vals: vals}
 			}
 		}
 	}
